@@ -358,8 +358,7 @@ def run(rep):
     if quick:
         bfs = [(2, 2, 2, 'KindsCore', 1), (3, 2, 3, 'KindsTiny', 1)]
     else:
-        bfs = [(3, 2, 3, 'KindsCore', 12), (4, 2, 4, 'KindsTiny', 4)]
-    pool = []
+        bfs = [(3, 2, 3, 'KindsCore', 7), (4, 2, 4, 'KindsTiny', 5)]
     for (d, w, n, ks, nparts) in bfs:
         for part in range(nparts):
             res = tlc.run_tlc('CtxStack', _cfg([1], d, w, n, ks, True, nparts, part, expect=True), workers=WP,
@@ -438,6 +437,8 @@ def replay(path):
     from .. import c16_body as B
     from .. import report
     w = json.load(open(path))['witness']
+    # a Report clears its replay directory: keep the replayed file, write this run's evidence elsewhere
+    os.environ['VERIF_EVIDENCE_DIR'] = os.path.join(common.BUILD, 'c16_replay_evidence')
     rep = report.Report('C16', 'replay')
     if w.get('mode') == 'tree':
         case = dict(tree=w['tree'], log=w['expected'], exc=w['expected_escapes'])
